@@ -73,6 +73,10 @@ pub struct Ctx<'a> {
     pub eof: u16,
     pub ntok: u16,
     pub looped: Cell<bool>,
+    /// consecutive reductions under one lookahead beyond which the table is taken to loop: a
+    /// legitimate chain is bounded by (stack depth) x (number of rules), and the stack is at most
+    /// as deep as the input (plus what a repair inserts) is long
+    pub red_cap: usize,
 }
 
 pub struct StepRes {
@@ -91,6 +95,7 @@ impl<'a> Ctx<'a> {
             eof: grm.eof_token_idx().0,
             ntok: grm.tokens_len().0,
             looped: Cell::new(false),
+            red_cap: RED_CAP + (toks.len() + 64) * (usize::from(grm.rules_len()) + 1),
         }
     }
     pub fn la(&self, i: usize) -> u16 {
@@ -108,7 +113,7 @@ impl<'a> Ctx<'a> {
             match self.st.action(StIdx(ss.top(s)), TIdx(t)) {
                 Action::Reduce(p) => {
                     nred += 1;
-                    if nred > RED_CAP {
+                    if nred > self.red_cap {
                         self.looped.set(true);
                         return StepRes { shifted: false, accept: false, stack: s };
                     }
@@ -135,7 +140,7 @@ impl<'a> Ctx<'a> {
             match self.st.action(StIdx(ss.top(s)), TIdx(t)) {
                 Action::Reduce(p) => {
                     nred += 1;
-                    if nred > RED_CAP {
+                    if nred > self.red_cap {
                         self.looped.set(true);
                         return s;
                     }
@@ -173,7 +178,7 @@ impl<'a> Ctx<'a> {
             match self.st.action(StIdx(ss.top(s)), TIdx(t)) {
                 Action::Reduce(p) => {
                     nred += 1;
-                    if nred > RED_CAP {
+                    if nred > self.red_cap {
                         self.looped.set(true);
                         return StepRes { shifted: false, accept: false, stack: s };
                     }
@@ -611,7 +616,7 @@ pub fn parse_tree(grm: &YaccGrammar<u16>, st: &StateTable<u16>, input: &[InTok])
         match st.action(StIdx(*states.last().unwrap()), TIdx(t)) {
             Action::Reduce(p) => {
                 nred += 1;
-                if nred > RED_CAP {
+                if nred > RED_CAP + (input.len() + 64) * (usize::from(grm.rules_len()) + 1) {
                     return TreeParse::Loop;
                 }
                 let n = grm.prod(p).len();
